@@ -205,9 +205,13 @@ TEnd ==
                      <<(TW!LastGvt = InfC /\ ~stopped) => \A x \in DOMAIN net : net[x].kind = "ctrl", "C06", "an event or anti-message sent to another rank was never received">> >>)
   /\ UNCHANGED <<twvars, expect>>
 
+\* C08 promises a return only once a termination condition holds: every LP's predicate true on a committed state,
+\* GVT at the termination time, or RootsimStop.  A run cut by the step budget before that (e.g. unbounded
+\* speculation ahead of a cancellation wave) is inconclusive, not a violation.
+MustReturn == stopped \/ TW!LastGvt >= TermTime \/ \A p \in TW!LpSet : TW!HeldCommitted(p, TW!LastGvt)
 THang ==
   /\ IsEvent("Hang")
-  /\ bad' = <<[p |-> "C08", w |-> "run does not return (deadlock or livelock): " \o Line.why, at |-> l]>>
+  /\ bad' = IF MustReturn THEN <<[p |-> "C08", w |-> "run does not return (deadlock or livelock): " \o Line.why, at |-> l]>> ELSE <<>>
   /\ UNCHANGED <<twvars, expect>>
 TCrash ==
   /\ IsEvent("Crash")
